@@ -79,7 +79,7 @@ PROPS = {
                   {'group': 'exec_strings', 'units': ['exec_set']}, {'group': 'exec_keys', 'units': ['exec_ttl', 'exec_renamenx', 'exec_expire']},
                   {'group': 'srv_strings', 'units': ['handle_ttl', 'handle_expire', 'handle_setex', 'handle_psetex', 'handle_set', 'handle_setnx', 'handle_renamenx']},
                   # overwriting commands at handler level: the TTL goes with the old value (GETSET also when the new value equals the old one)
-                  {'group': 'cmd_strings', 'units': ['handle_getset', 'handle_append', 'handle_setrange']}],
+                  {'group': 'cmd_strings', 'units': ['handle_getset', 'handle_append', 'handle_setrange', 'handle_mset']}],
         'explanation': 'deadline-index invariant index_ok preserved by every shard operation under contract; lazy expiry of get/exists/set_nx; ttl arithmetic',
     },
     'C03': {
